@@ -48,6 +48,11 @@ class ScriptPass(AbstractPass):
                     check_sanity()
                 except InsaneTestCaseError:
                     ok = False
+                except BaseException:
+                    # as LinesPass.__format (after fix: commit): a check that did not complete leaves the file as it was
+                    with open(test_case, 'wb') as f:
+                        f.write(backup)
+                    raise
             if not ok:
                 with open(test_case, 'wb') as f:
                     f.write(backup)
